@@ -375,6 +375,7 @@ func soloOf(f *fixture, r *core.Result, i int) solo {
 		return s
 	}
 	// clean pools, no poison; then again with poison: both must agree (history of length 1)
+	argsWas := ""
 	run := func(poisonOn bool) (solo, *core.PanicInfo) {
 		resetPools(poisonOn)
 		var s solo
@@ -382,6 +383,9 @@ func soloOf(f *fixture, r *core.Result, i int) solo {
 			out, err := f.ops[i].run()
 			s = solo{append([]byte{}, out...), err != nil}
 		})
+		if was, changed := f.argsRestore(); changed {
+			argsWas = was
+		}
 		return s, pi
 	}
 	a, pa := run(false)
@@ -394,6 +398,10 @@ func soloOf(f *fixture, r *core.Result, i int) solo {
 		r.Add("solo|"+f.ops[i].name+"|panic@"+pi.Site+":"+core.PanicClass(pi.Val), "op %s alone panics: %s\n%s", f.ops[i].name, pi.Val, pi.Stack)
 	} else if a.err != b.err || !bytes.Equal(a.out, b.out) {
 		r.Add("solo|"+f.ops[i].name+"|poison-changes-result", "op %s alone: result with dirty pool memory differs: %q vs %q", f.ops[i].name, trunc(a.out), trunc(b.out))
+	}
+	if argsWas != "" {
+		was := argsWas
+		r.Add("solo|"+f.ops[i].name+"|rewrites-argument-shared-by-callers", "op %s alone: the path slice the caller passed (and shares with other calls) reads %s afterwards, %s before", f.ops[i].name, was, f.argsDump())
 	}
 	solos[i] = a
 	return a
